@@ -63,4 +63,39 @@ try:
                 out[key0 + ":" + part] = vals
 except Exception as e:  # noqa
     out["rsl"] = "IMPORT:" + type(e).__name__ + ":" + str(e)[:120]
+# the kernel triples the target-mass-correction classes build (esf/tmc.py): kernel and argument vector as packed by the real class
+try:
+    from corr import tmc as H
+    from yadism.esf import tmc as TM, conv
+    interp = H.interpolator([0.05, 0.2, 0.5, 1.0], 1, True)
+    captured = []
+    real_conv = conv.convolution
+    conv.convolution = lambda rsl, x, pj: (captured.append(rsl), (0.0, 0.0))[1]
+    try:
+        for kind in ("F2", "FL", "F3", "g1"):
+            for mode in (1, 3):
+                sf = H.StubSF(kind, "total", 0.88, mode, interp)
+                del captured[:]
+                try:
+                    TM.ESFTMCmap[kind](sf, {"x": 0.3, "Q2": 5.0}).get_result()
+                except Exception as e:  # noqa
+                    out["rsl:tmc/%s/%d:build" % (kind, mode)] = ["EXC:" + type(e).__name__]
+                    continue
+                seen = set()
+                for rsl in captured:
+                    name = rsl.reg.__name__
+                    if name in seen:
+                        continue
+                    seen.add(name)
+                    vals = []
+                    for z in (0.4, 0.8):
+                        try:
+                            vals.append(float(np.real(rsl.reg(z, rsl.args["reg"]))))
+                        except Exception as e:  # noqa
+                            vals.append("EXC:" + type(e).__name__)
+                    out["rsl:tmc/%s/%d:%s" % (kind, mode, name)] = vals
+    finally:
+        conv.convolution = real_conv
+except Exception as e:  # noqa
+    out["rsl:tmc"] = "IMPORT:" + type(e).__name__ + ":" + str(e)[:120]
 json.dump(out, sys.stdout)
